@@ -191,11 +191,17 @@ def retry_stateless_unit(ctx):
 
         return f
 
+    def outcome(w):
+        try:
+            return w()
+        except ET as e:             # an invocation that should have succeeded within its budget: reported by the obligations below
+            return ("raised", str(e))
+
     a = flaky("a", 2)
     wa = retry(a)
-    r1 = wa()                       # fails twice, succeeds on the third attempt
+    r1 = outcome(wa)                # fails twice, succeeds on the third attempt
     b = flaky("b", 2)
-    r2 = retry(b)()                 # another function through the same decorator: again three attempts
+    r2 = outcome(retry(b))          # another function through the same decorator: again three attempts
     c = flaky("c", 2)
     a2 = flaky("a", 5)
     wa2 = retry(a2)
@@ -205,13 +211,13 @@ def retry_stateless_unit(ctx):
     except ET as e:
         exhausted = e
     wc = retry(c)
-    r3 = wc()
+    r3 = outcome(wc)
     ctx.check("every-invocation-gets-its-own-budget-of-attempts(whatever-failed-before-through-the-same-decorator-or-wrapper)",
               bool(r1 == ("a", 3) and r2 == ("b", 3) and r3 == ("c", 3)), info=str(calls))
     ctx.check("an-exhausted-invocation-raises-its-own-last-exception-after-exactly-attempts-tries", bool(exhausted is not None and str(exhausted) == "a attempt 3"), info=str(calls))
     a3 = flaky("z", 0)
     wz = retry(a3)
-    ctx.check("a-second-invocation-of-the-same-wrapper-runs-the-function-again(no-result-or-error-is-remembered)", bool(wz() == ("z", 1) and wz() == ("z", 2)))
+    ctx.check("a-second-invocation-of-the-same-wrapper-runs-the-function-again(no-result-or-error-is-remembered)", bool(outcome(wz) == ("z", 1) and outcome(wz) == ("z", 2)))
     return "ok"
 
 
